@@ -279,6 +279,20 @@ def run_group(acc, group, tier, only=None):
                 c.chk("einsum", "einsum-re:" + t, lambda: X.einsum(e, ea, eb, imag_part=False), w.real)
                 c.chk("einsum", "einsum-im:" + t, lambda: X.einsum(e, ea, eb, real_part=False), w.imag)
                 c.chk("einsum", "einsum-none:" + t, lambda: np.zeros(()) if X.einsum(e, ea, eb, real_part=False, imag_part=False) is None else np.ones(()), np.zeros(()))
+        # the matrix product spelled with EVERY index letter (as the contracted and as a free index): an index name
+        # is the caller's choice and must never collide with anything the implementation uses internally
+        import string
+        letters = string.ascii_lowercase + string.ascii_uppercase
+        for li, Lt in enumerate(letters):
+            p_, q_ = [x for x in "xyab" if x != Lt.lower() and x != Lt][:2]
+            for e, sa, sb in ((f"{p_}{Lt},{Lt}{q_}->{p_}{q_}", (2, 2), (2, 3)), (f"{p_}{Lt},{Lt}{q_}->{p_}{q_}", (2, 3), (3, 2)), (f"{Lt}{p_},{p_}{q_}->{Lt}{q_}", (2, 3), (3, 2))):
+                a, b = fill(sa, li % 3), fill(sb, li % 3 + 3)
+                ea, eb = enc(a), enc(b)
+                w = np.einsum(e, a, b)
+                t = f"{e}:{sa}x{sb}"
+                c.chk("einsum", "einsum-letter-both:" + t, lambda: X.einsum(e, ea, eb), w)
+                c.chk("einsum", "einsum-letter-re:" + t, lambda: X.einsum(e, ea, eb, imag_part=False), w.real)
+                c.chk("einsum", "einsum-letter-im:" + t, lambda: X.einsum(e, ea, eb, real_part=False), w.imag)
     elif group == "errors":
         v2, m22, v3 = enc(fill((2,), 0)), enc(fill((2, 2), 0)), enc(fill((3,), 1))
         r3 = enc(fill((2, 2, 2), 1))
